@@ -88,8 +88,21 @@ pub fn observe(case: &Case) -> Obs {
     if case.disk {
         let dir = super::c01_c02::scratch_dir();
         let tid: String = format!("{:?}", std::thread::current().id()).chars().filter(|c| c.is_ascii_digit()).collect();
-        // (every third case names the .shp in capitals: the companion is the same path with the extension "shx")
-        let path = dir.join(if case.seq.len() % 3 == 2 { format!("C04-{}.SHP", tid) } else { format!("c04-{}.shp", tid) });
+        // (every third case names the .shp in capitals: the companion is the same path with the extension "shx";
+        // every other third reaches the .shp through a symbolic link that lives in another directory)
+        let path = if case.seq.len() % 3 == 1 && cfg!(unix) {
+            let (da, db) = (dir.join(format!("c04-{}-a", tid)), dir.join(format!("c04-{}-b", tid)));
+            let _ = std::fs::create_dir_all(&da);
+            let _ = std::fs::create_dir_all(&db);
+            let link = da.join("link.shp");
+            let _ = std::fs::remove_file(&link);
+            std::fs::write(db.join("real.shp"), b"").expect("scratch write");
+            #[cfg(unix)]
+            std::os::unix::fs::symlink(db.join("real.shp"), &link).expect("symlink");
+            link
+        } else {
+            dir.join(if case.seq.len() % 3 == 2 { format!("C04-{}.SHP", tid) } else { format!("c04-{}.shp", tid) })
+        };
         std::fs::write(&path, vec![0xEEu8; 70_000]).expect("prefill");
         std::fs::write(path.with_extension("shx"), vec![0xEEu8; 9_000]).expect("prefill");
         {
@@ -112,6 +125,8 @@ pub fn observe(case: &Case) -> Obs {
         }
         let _ = std::fs::remove_file(&path);
         let _ = std::fs::remove_file(path.with_extension("shx"));
+        let _ = std::fs::remove_dir_all(dir.join(format!("c04-{}-a", tid)));
+        let _ = std::fs::remove_dir_all(dir.join(format!("c04-{}-b", tid)));
     } else {
         let stale = if case.prefill { vec![0xEEu8; 6000] } else { vec![] };
         let (a, b) = (Dev::quiet(stale.clone()), Dev::quiet(stale));
@@ -167,7 +182,8 @@ pub fn observe(case: &Case) -> Obs {
     if let Ok(mut r) = open() {
         // random access at every position (for very long files: both ends and the block boundaries)
         let positions: Vec<usize> = if n <= 64 { (0..n + 2).collect() } else { (0..8).chain(n / 2 - 2..n / 2 + 2).chain(996..1004.min(n)).chain(1020..1030.min(n)).chain(2996..3004.min(n)).chain(n - 4..n + 2).collect() };
-        for i in positions {
+        // (and the ends of the index type: nothing is there)
+        for i in positions.into_iter().chain([i32::MAX as usize, u32::MAX as usize, usize::MAX - 1, usize::MAX]) {
             nth_pos.push(i);
             nth.push(r.read_nth_shape(i).map(|x| x.map(|s| from_lib(&s)).map_err(|e| err_kind(&e))));
         }
@@ -482,14 +498,16 @@ pub fn check(tier: Tier) -> i32 {
         agg.absorb(a);
         capped |= c;
     }
-    let st = selftest();
+    // the self-test runs the library too: on a tree that panics there it counts as failed (a verdict, if there is one,
+    // takes precedence over it)
+    let st = catch(|| selftest()).unwrap_or((1, 0));
     finish(
         RunInfo {
             prop: "C04",
             tier,
             level: "model_checking",
             engine: "E2 enumerator: every ordered tuple of different-size shapes written by the real ShapeWriter, .shx parsed independently (RefCodec), reader routes compared",
-            rule: "13 types x every n in 0..=maxn x every ordered n-tuple over the type's reduced set of pairwise different-size structures; in-memory for all, from_path for n<=2 (and n=3 starting with structure 0); for n<=8 the iterator is also driven through 14 programs of std adaptors (nth, skip, step_by, last, count) with and without the index from a fresh reader, after one next() and after seek(1); plus every history over {write a, write b, finalize} up to the fault-history bound x 13 types with every single one-shot fault and every unordered pair of faults on .shp / .shx: whenever no fault fired in drop, the two files (up to their declared lengths) satisfy the byte-level clause for the shapes whose write returned Ok; non-trivial = n >= 2",
+            rule: "13 types x every n in 0..=maxn x every ordered n-tuple over the type's reduced set of pairwise different-size structures; in-memory for all, from_path for n<=2 (and n=3 starting with structure 0; by turns under a plain name, a name in capitals, and through a symbolic link in another directory); for n<=8 the iterator is also driven through 14 programs of std adaptors (nth, skip, step_by, last, count) with and without the index from a fresh reader, after one next() and after seek(1); plus every history over {write a, write b, finalize} up to the fault-history bound x 13 types with every single one-shot fault and every unordered pair of faults on .shp / .shx: whenever no fault fired in drop, the two files (up to their declared lengths) satisfy the byte-level clause for the shapes whose write returned Ok; non-trivial = n >= 2",
             bounds: json!({"max_records": maxn, "reduced_set_sizes": ALL13.iter().map(|t| reduced_set(*t).len()).collect::<Vec<_>>() }),
             exhaustive: true,
             assumptions: vec!["record sizes beyond the reduced set and n beyond the bound are not covered".into()],
